@@ -757,9 +757,9 @@ untouched, and the table keeps its rows -/
 theorem derived_column (t t' : Table) (n : Nat) (hr : t.Rect n) (hne : t ≠ []) (k : String) (f : Fn)
     (h : t.setFn (k, f) = .ok t') :
     ∃ vs, t'.col? k = some vs ∧ vs.length = n ∧
-      (∀ i (hi : i < vs.length), f.eval (t.cellAt i) = .ok vs[i]) ∧
+      (∀ i (hi : i < vs.length), f.eval (keyDflt k (t.cellAt i)) = .ok vs[i]) ∧
       (∀ k', k' ≠ k → t'.col? k' = t.col? k') ∧ t'.Rect n := by
-  unfold setFn at h
+  unfold setFn applyFnK at h
   split at h
   · cases h
   · rename_i vs hvs
